@@ -367,6 +367,11 @@ def len_of(t):
         return t[2][0]
     if t[0] == "un" and t[1] == "PtrMetadata":
         return t[2]
+    if t[0] == "payload" and t[1][0] == "call" and t[1][1] == "std::option::Option::map" and len(t[1][2]) == 2:
+        # opt.map(str::len) unwrapped: the length of the unwrapped opt
+        f = t[1][2][1]
+        if f[0] == "fn" and (f[1] in LEN_CALLS or f[1].endswith("::len")):
+            return ("payload", t[1][2][0], t[2])
     return None
 
 
@@ -407,12 +412,18 @@ def assumed_int(assumptions, t):
     return None
 
 
-def assumed_ok(assumptions, subj):
+SOMENESS_PRESERVING = {"std::option::Option::map", "std::option::Option::as_ref", "std::option::Option::as_mut", "std::option::Option::cloned", "std::option::Option::copied", "std::option::Option::as_deref", "std::option::Option::inspect"}
+
+
+def assumed_ok(assumptions, subj, _d=0):
     if subj[0] == "trybranch":
         subj = subj[1]
     for pred, value in assumptions:
         if isinstance(value, tuple) and value[0] == "ok" and pred(subj):
             return value[1]
+    if subj[0] == "call" and subj[1] in SOMENESS_PRESERVING and subj[2] and _d < 4:
+        # x.map(f) is Some exactly when x is
+        return assumed_ok(assumptions, subj[2][0], _d + 1)
     return None
 
 
